@@ -66,6 +66,7 @@ macro_rules! impl_acc {
                     "as_ref" => { let a: &[$S; 2] = self.as_ref(); Obs::Lanes(a.to_vec()) }
                     "debug" => Obs::Text(format!("{:?}", self)),
                     "display" => Obs::Text(format!("{}", self)),
+                    "display_prec" => Obs::Text(format!("{:.2}", self)),
                     "eq_self" => Obs::Bool(*self == *self),
                     _ => return None,
                 })
@@ -113,6 +114,7 @@ macro_rules! impl_acc {
                     "as_ref" => { let a: &[$S; 3] = self.as_ref(); Obs::Lanes(a.to_vec()) }
                     "debug" => Obs::Text(format!("{:?}", self)),
                     "display" => Obs::Text(format!("{}", self)),
+                    "display_prec" => Obs::Text(format!("{:.2}", self)),
                     "eq_self" => Obs::Bool(*self == *self),
                     _ => return None,
                 })
@@ -160,6 +162,7 @@ macro_rules! impl_acc {
                     "as_ref" => { let a: &[$S; 4] = self.as_ref(); Obs::Lanes(a.to_vec()) }
                     "debug" => Obs::Text(format!("{:?}", self)),
                     "display" => Obs::Text(format!("{}", self)),
+                    "display_prec" => Obs::Text(format!("{:.2}", self)),
                     "eq_self" => Obs::Bool(*self == *self),
                     _ => return None,
                 })
@@ -213,9 +216,13 @@ impl_acc!(USizeVec4, usize, 4, usizevec4, unsigned);
 /// Expected Debug / Display text, built from the primitive formatter of each lane with the
 /// grammar of spec/Fmt (Display = "[e1, e2, ...]", Debug = "Name(e1, e2, ...)").
 pub fn fmt_expected<S: Scalar>(name: &str, lanes: &[S], debug: bool) -> String {
+    fmt_expected_p(name, lanes, debug, false)
+}
+/// with `prec`: the precision flag `{:.2}` is forwarded to each element (floats; integers ignore it)
+pub fn fmt_expected_p<S: Scalar>(name: &str, lanes: &[S], debug: bool, prec: bool) -> String {
     let el: Vec<String> = lanes
         .iter()
-        .map(|x| if debug { format!("{:?}", x) } else { format!("{}", x) })
+        .map(|x| if debug { format!("{:?}", x) } else if prec && S::SC.is_float() { format!("{:.2}", x) } else { format!("{}", x) })
         .collect();
     if debug {
         format!("{}({})", name, el.join(", "))
@@ -270,6 +277,7 @@ macro_rules! impl_quat_acc {
                     "as_ref" => { let a: &[$S; 4] = self.as_ref(); Obs::Lanes(a.to_vec()) }
                     "debug" => Obs::Text(format!("{:?}", self)),
                     "display" => Obs::Text(format!("{}", self)),
+                    "display_prec" => Obs::Text(format!("{:.2}", self)),
                     _ => return None,
                 })
             }
